@@ -467,3 +467,209 @@ def rechunk_monitor(ck, items, rnd, limit=400):
                           "events": D.jsonable(evs), "events_rechunked": D.jsonable(evs2), "policy": pk, "replay_op": "bc"})
             break
     ck.hist("rechunked_histories", n)
+
+
+# ------------------------------------------------------------------ callbacks that re-enter the client
+# A user callback on the Deferred of a reply-expecting request may call back into the broker client synchronously
+# (close(), makeRequest(), cancel() of another request, disconnect()).  Such a Deferred fires in TAIL position of
+# handleResponse (brokerclient.py:361), so by C06_client_chunking the re-entrant call must equal the same call made as
+# the next event.  This part checks that on the real code: the implementation runs with hooks, the model runs the
+# history with the hooked action inserted after the event in which the Deferred fired, segments are merged.
+# (The only non-tail firing - callback(None) of a no-reply request inside _sendQueued - is probed separately: F-C10-1.)
+class HookImpl(D.Impl):
+    def __init__(self, policy_kind, rnd, hooks):
+        D.Impl.__init__(self, policy_kind, rnd)
+        self.hooks = hooks            # handle -> action (an event tuple) performed inside the success callback
+        self.hook_fired = []          # (index of the event during which it ran, action)
+
+    def _watch(self, d, h):
+        D.Impl._watch(self, d, h)
+        act = self.hooks.get(h)
+        if act is None:
+            return
+
+        def cb(result):
+            # Impl._watch's errback returns None, so this runs after failures too: act on successes only
+            code = next((e[2] for e in reversed(self.log) if e[0] == "def" and e[1] == h), None)
+            if code not in (1, 2):
+                return result
+            self.hook_fired.append((len(self.records), act))
+            try:
+                self._dispatch(act, act[0], self.enabled(act), self.log)
+            except Exception as e:
+                self.last_exc = repr(e)
+                self.log.append(("raised", 99))
+            return result
+        d.addCallback(cb)
+
+
+def run_hooked(events, hooks, pk="const"):
+    im = HookImpl(pk, None, dict(hooks))
+    for ev in events:
+        im.apply(ev)
+    return im
+
+
+def hooked_history(rnd, length):
+    hooks = {}
+    im = HookImpl("const", None, hooks)
+    events, nxt, extra = [], 1, 1000
+    for _ in range(length):
+        opts = [("make", 25.0)]
+        if im.handles:
+            opts.append(("cancel", 8.0))
+        if im.attempt():
+            opts += [("ok", 30.0), ("fail", 6.0)]
+        if im.timer():
+            opts.append(("fire", 20.0))
+        if im.transport():
+            opts += [("frame", 30.0), ("lost", 4.0), ("disc", 1.5)]
+        opts.append(("close", 0.8))
+        x = rnd.uniform(0, sum(w for _, w in opts))
+        for kind, w in opts:
+            x -= w
+            if x <= 0:
+                break
+        if kind == "make":
+            rid = rnd.choice(im.rids) if im.rids and rnd.random() < 0.05 else nxt
+            nxt += 1
+            expect = rnd.random() > 0.15
+            ev = ("make", rid, expect)
+            h = len(im.handles)
+            if expect and rnd.random() < 0.6:
+                r = rnd.random()
+                if r < 0.2:
+                    act = ("close",)
+                elif r < 0.5:
+                    extra += 1
+                    act = ("make", extra if rnd.random() < 0.8 else rid, rnd.random() > 0.3)
+                elif r < 0.85:
+                    act = ("cancel", rnd.randint(0, h + 2))
+                else:
+                    act = ("disc",)
+                hooks[h] = act
+            im.apply(ev)
+            if len(im.handles) == h:
+                hooks.pop(h, None)
+        elif kind == "cancel":
+            ev = ("cancel", rnd.randrange(len(im.handles)))
+            im.apply(ev)
+        elif kind == "frame":
+            rid = rnd.choice(im.rids) if im.rids and rnd.random() < 0.85 else 77
+            ev = ("frame", D.reply(rid, bytes(rnd.randint(0, 255) for _ in range(rnd.choice([0, 2, 5])))))
+            im.apply(ev)
+        else:
+            ev = (kind,)
+            im.apply(ev)
+        events.append(ev)
+    return events, dict(hooks), im
+
+
+def merge_segments(model_trace, counts):
+    msegs, merged, j = split_trace(model_trace), [], 0
+    for n in counts:
+        seg = [msegs[j][0], list(msegs[j][1])] if j < len(msegs) else [-1, []]
+        j += 1
+        for _ in range(n):
+            if j < len(msegs):
+                seg = [msegs[j][0], seg[1] + msegs[j][1]]
+                j += 1
+        merged.append(seg)
+    return merged
+
+
+def hooked_model_case(events, hook_fired):
+    mev, counts = [], []
+    for i, ev in enumerate(events):
+        mev.append(ev)
+        acts = [a for (idx, a) in hook_fired if idx == i]
+        mev += acts
+        counts.append(len(acts))
+    return mev, counts
+
+
+def reentrant_part(ck, rnd, n, tied):
+    label = "callbacks re-entering the client (close/makeRequest/cancel/disconnect from a reply callback) vs the model with the call as the next event"
+    cases, metas = [], []
+    for _ in range(n):
+        events, hooks, im = hooked_history(rnd, rnd.choice([10, 25, 50]))
+        mev, counts = hooked_model_case(events, im.hook_fired)
+        cases.append(D.enc_case(mev))
+        metas.append((events, hooks, im.records, counts, len(im.hook_fired)))
+        ck.hist("reentrant_calls", len(im.hook_fired))
+        for _i, a in im.hook_fired:
+            ck.hist("reentrant_" + a[0])
+    mo = ck.model(MODEL, cases)
+    ndiff, first, raised = 0, None, None
+    for i, ((events, hooks, records, counts, _nf), mt) in enumerate(zip(metas, mo)):
+        if raised is None and any(o == ("raised", 99) for r in records for o in r[2]):
+            raised = i
+        if merge_segments(mt, counts) != split_trace(D.enc_trace(records)):
+            ndiff += 1
+            if first is None:
+                first = i
+    st = ck.cov["correspondence"].setdefault(label, {"cases": 0, "differences": 0, "in_coq_sample": 0})
+    st["cases"] += n
+    st["differences"] += ndiff
+    ck.cov["evaluations"] += n
+    for c, m in zip(cases, metas):
+        if m[4]:
+            ck._distinct.add(vlib.hashlib.sha1(vlib.encode_line(c).encode()).digest()[:8])
+    if raised is not None:
+        events, hooks, records, counts, _nf = metas[raised]
+
+        def failing(evs):
+            return any(o == ("raised", 99) for r in run_hooked(evs, hooks).records for o in r[2])
+        # dropping events renumbers handles, so only a suffix is cut off
+        small = list(events)
+        while len(small) > 1 and failing(small[:-1]):
+            small = small[:-1]
+        im = run_hooked(small, hooks)
+        ck.violation({"kind": "monitor: a call made from inside a reply callback raised an exception no legal behaviour includes",
+                      "theorem": "C06_exactly_once", "message": "exception %s" % getattr(im, "last_exc", "?"),
+                      "events": D.jsonable(small), "hooks": {str(k): D.jsonable([v])[0] for k, v in hooks.items()},
+                      "impl_outputs": [[D.jsonable([o])[0] for o in r[2]] for r in im.records], "replay_op": "bc-hook"})
+    elif first is not None:
+        events, hooks, records, counts, _nf = metas[first]
+        ck.violation({"kind": "correspondence broken", "correspondence": "corr:brokerclient:" + label, "theorems_no_longer_tied": tied,
+                      "events": D.jsonable(events), "hooks": {str(k): D.jsonable([v])[0] for k, v in hooks.items()},
+                      "impl": D.enc_trace(records), "model": mo[first], "differing_cases": ndiff, "replay_op": "bc-hook"}, no_input=True)
+    return st
+
+
+def replay_hook(rp):
+    events = D.unjson(rp["events"])
+    hooks = {int(k): tuple(v) for k, v in rp["hooks"].items()}
+    im = run_hooked(events, hooks, rp.get("policy", "const"))
+    print(rp.get("kind"), "|", rp.get("message", ""))
+    print("hooks (handle -> call made inside its success callback):", hooks)
+    bad = 0
+    for ev, c, outs, en in im.records:
+        print("  %-40r connected=%d %r" % (ev if ev[0] not in ("data", "frame") else (ev[0], list(ev[1])), c, outs))
+        bad += sum(1 for o in outs if o == ("raised", 99))
+    mev, counts = hooked_model_case(events, im.hook_fired)
+    exe = os.path.join(vlib.OUT, "run_" + MODEL)
+    if os.path.exists(exe):
+        p = subprocess.run([exe], input=(vlib.encode_line(D.enc_case(mev)) + "\n").encode(), stdout=subprocess.PIPE)
+        mt = [int(x) for x in p.stdout.decode().split()]
+        if merge_segments(mt, counts) != split_trace(D.enc_trace(im.records)):
+            print("differs from the model run with the calls as next events:", mt)
+            bad += 1
+    return 1 if bad else 0
+
+
+# ------------------------------------------------------------------ F-C10-1 probe
+def probe_f_c10_1():
+    """close() from the callback of a no-reply request while _sendQueued flushes the queue: is a request written after
+    close() failed its Deferred?  returns (observed, outputs of the connect event)"""
+    events = [("make", 1, False), ("make", 2, True), ("ok",)]
+    im = run_hooked(events, {0: ("close",)})
+    outs = im.records[-1][2]
+    seen_def = False
+    observed = False
+    for o in outs:
+        if o[0] == "def" and o[1] == 1:
+            seen_def = True
+        if (o[0] == "write" and o[1] == 1 and seen_def) or o == ("raised", 99):
+            observed = True
+    return observed, events, outs
